@@ -11,7 +11,8 @@ META = {
                  'override_args and ignore_extra_args, each in several value modes: distinct, equal on both routes, as bound, boxed) '
                  'as a state machine; TLC checks that the effective call is well defined and that full / late binding '
                  'coincide with a direct call, exports the binding table, and simulates life cycles; the driver generates '
-                 'the Python function of every signature, validates BindV against the interpreter, and replays table and '
+                 'the Python function of every signature (own defaults truthy / None / falsy; argument values concretised as distinct, '
+                 'None or falsy), validates BindV against the interpreter, symbolizes with and without explicit value specs, and replays table and '
                  'behaviours through pg.functor, pg.symbolize(fn), a pg.Object subclass and pg.symbolize(cls) (also .partial)',
     'level_text': 'Callable.tla models Python\'s binding algorithm for every signature shape (0-3 positional with/without '
                   'defaults, *args, keyword-only with/without default, **kw) and the documented merge of construction-time, '
@@ -21,7 +22,7 @@ META = {
                   'itself and then against six ways of symbolic binding; simulated life cycles are stepped through real '
                   'functors comparing results, error kind, sym_init_args, clone and JSON round trips.',
     'level_note': 'Bounded: <= 3 positional, 2 keyword-only, 2 undeclared keyword names, <= 4 positional arguments; '
-                  'positional-only parameters, call-time *args on top of prebound *args, MISSING_VALUE as an argument and '
+                  'positional-only parameters, call-time *args on top of prebound *args, MISSING_VALUE as an argument, a value equal to the default and '
                   'type-check-disabled mode are don\'t-cares (not generated). Error messages are never compared, only the '
                   'TypeError family. Trusted: TLC, the behaviour parser, the function generator in callable_replay.py '
                   '(itself cross-checked: interpreter vs BindV on every pair).',
